@@ -151,9 +151,9 @@ impl ParseInfo {
         layers.validate(&tilesets)?;
 
         //let framedata = self.framedata;
-        let framedata = self
-            .framedata
-            .validate(&layers, pixel_format, palette.clone())?;
+        let framedata =
+            self.framedata
+                .validate(&layers, &tilesets, pixel_format, palette.clone())?;
 
         Ok(ValidatedParseInfo {
             layers,
